@@ -17,6 +17,12 @@ package queue
 // key for a (domain, selector) that has one and what it signs verifies against the record published FIRST.
 // The added-field tampering now takes the name from the CONFIGURED over-sign list.  The shared keys of
 // the run are found by content, not by file name (a change of the naming used to stop every test).
+//
+// Round 6: time is an input (TestVerifC08Clock: the life of one modifier instance on a clock moved by hand - uptime
+// before the signing, transit delay before the verification, sig_expiry as case parameters; see checks/c08.py
+// clock_overlay); key histories with keys that exist WITHOUT their record file (imported by the administrator, or the
+// record deleted) of a type other than newkey_algo: whatever record of the signing key is in the directory after a
+// start must be right and must verify what the instance signs.
 
 import (
 	"bufio"
